@@ -132,15 +132,22 @@ impl<'a> Gen<'a> {
             "string" => Tree::Str(STRS[r.below(STRS.len())].to_string()),
             "integer" => Tree::Int([0, 1, -1, 2147483647, -2147483648, 42][r.below(6)]),
             "safelong" => Tree::Int([0, 9007199254740991, -9007199254740991, 1234567890123][r.below(4)]),
-            "double" => match r.below(9) {
+            "double" => match r.below(10) {
                 // any JSON number is a double: also one written as an integer, of either sign
                 6 => Tree::Int([3, 0, 1, 9007199254740991][r.below(4)]),
                 7 | 8 => Tree::Int([-3, -1, -2147483649, -9007199254740991][r.below(4)]),
+                9 => Tree::Dbl(Dbl::of(1.5e-7)),
                 0 => Tree::Str("NaN".into()),
                 1 => Tree::Str("Infinity".into()),
                 2 => Tree::Str("-Infinity".into()),
                 3 => Tree::Dbl(Dbl::of(0.5)),
                 4 => Tree::Dbl(Dbl::of(-1e300)),
+                // doubles that need all 17 significant digits, of everyday and of arbitrary magnitude
+                5 if r.chance(1, 2) => Tree::Dbl(Dbl::of(100.0 + (r.next() >> 11) as f64 / (1u64 << 53) as f64 * 100.0)),
+                5 => {
+                    let x = f64::from_bits(r.next());
+                    Tree::Dbl(Dbl::of(if x.is_finite() { x } else { 1.5e-7 }))
+                }
                 _ => Tree::Dbl(Dbl::of(1.5e-7)),
             },
             "boolean" => Tree::Bool(r.chance(1, 2)),
@@ -630,8 +637,22 @@ pub fn cases(seed: u64, tier: Tier) -> Cases {
                         } else {
                             None
                         };
+                        // a document that is one number, read as a double and written back, denotes the double nearest to
+                        // the literal (judged by the standard library's parser, not by the one under test)
+                        let not_nearest = match (&r, label == "valid") {
+                            (Ok(Ok(out)), true) => {
+                                let txt = String::from_utf8_lossy(&bytes).to_string();
+                                match (txt.trim().parse::<f64>(), out.trim().parse::<f64>()) {
+                                    (Ok(a), Ok(b)) if a.is_finite() && a.to_bits() != b.to_bits() && !(a == 0.0 && b == 0.0) => Some(format!("the literal {} denotes {:?} but is written back as {}", txt.trim(), a, out.trim())),
+                                    _ => None,
+                                }
+                            }
+                            _ => None,
+                        };
                         if let Err(p) = &r {
                             cs.fail_last(&format!("panic:{}", name), format!("{} panicked on {}: {}", name, String::from_utf8_lossy(&bytes), p));
+                        } else if let Some(w) = not_nearest {
+                            cs.fail_last("double:not-nearest", format!("{} ({}, {}): {}", name, cfg, if server { "server" } else { "client" }, w));
                         } else if let Some(b) = altered_int {
                             cs.fail_last("any:integer-altered", format!("{} ({}, {}): the integer {} held in an `any` is not in the re-serialization of {}: {}", name, cfg, if server { "server" } else { "client" }, b, String::from_utf8_lossy(&bytes), real));
                         } else if let Some(w) = not_omitted {
@@ -696,7 +717,7 @@ pub fn cases(seed: u64, tier: Tier) -> Cases {
     // of aliases and external fallbacks), under all three configurations
     let n_ir = if tier == Tier::Quick { 40 } else { 400 };
     for k in 0..n_ir {
-        let rir = crate::irrand::random_ir(&mut rng, &crate::irrand::Opts { max_types: 8, services: false, errors: false, keywords: true });
+        let rir = crate::irrand::random_ir(&mut rng, &crate::irrand::Opts { max_types: 8, services: false, errors: false, keywords: true, rich_set_items: false });
         let rdefs = ir_of(&rir);
         let rsexp = defs_sexp(&rdefs);
         let (exh, emp) = (rng.chance(1, 2), rng.chance(1, 2));
